@@ -37,19 +37,20 @@ func NewCrypter(key []byte) Crypter {
 }
 
 func EncryptionKeyOrGenerate(cfg *config.Config) ([]byte, error) {
-	key, err := base64.StdEncoding.DecodeString(cfg.EncryptionKey)
-	if err != nil {
-		if len(cfg.EncryptionKey) > 0 {
-			return nil, fmt.Errorf("decode encryption key: %w", err)
-		}
-	}
-
-	if len(key) == 0 {
+	if len(cfg.EncryptionKey) == 0 {
 		log.Warn("no encryption key was provided, generating a random ephemeral key; sessions will not be able to be decrypted after restart")
-		key, err = keygen.Keygen(KeySize)
+		key, err := keygen.Keygen(KeySize)
 		if err != nil {
 			return nil, fmt.Errorf("generate random encryption key: %w", err)
 		}
+		return key, nil
+	}
+
+	// a key that was supplied must decode to exactly KeySize bytes; a value that decodes to nothing
+	// (e.g. only line breaks, which the decoder skips) is not the same as no key at all.
+	key, err := base64.StdEncoding.DecodeString(cfg.EncryptionKey)
+	if err != nil {
+		return nil, fmt.Errorf("decode encryption key: %w", err)
 	}
 
 	if len(key) != chacha20poly1305.KeySize {
